@@ -279,7 +279,11 @@ func (s *scheduler) deadlock() {
 		}
 	}
 	sort.Strings(parts)
-	ab := &pathAbort{kind: abDeadlock, msg: "all tasks blocked: " + fmt.Sprint(parts)}
+	msg := "all tasks blocked: " + fmt.Sprint(parts)
+	if s.i.livelock {
+		msg = "no progress (more than 200 virtual-time advances in which only timers ran) while " + fmt.Sprint(parts)
+	}
+	ab := &pathAbort{kind: abDeadlock, msg: msg}
 	if s.cur.isMain {
 		panic(ab)
 	}
